@@ -288,7 +288,9 @@ func checkCommands(fatalf func(string, ...any), r registration, cmds []string, d
 		}
 		emitted++
 	}
-	if r.expressible {
+	// must-emit is asserted for registrations made of plain characters only;
+	// for odd ones dropping is allowed, emitting something wrong is not
+	if r.expressible && !r.odd {
 		for i, rt := range r.routeTags {
 			if rt.expressible && !matched[i] {
 				fatalf("well-formed route tag %q produced no command\n%s", rt.text, ctx)
